@@ -19,9 +19,9 @@ CLAIMS = {
         note="No function of do_minimize is under a Verus contract yet; nothing here is counted as proved.",
         design="§7 C03", tech="bounded exhaustive comparison against an independent Moore minimisation (stand-in; Verus contracts on the helpers planned)", cat="exploration"),
     "C04": dict(
-        text="Kani proves the per-shell index base constants (bash 0, fish 1, zsh 1, pwsh 0) on the extracted items. Everything else is a labelled bounded stand-in on the real code over the grammar corpus x 4 shells: the LookupTables every emitter prints (literal list longest-first with ids from the shell's base, match tables, per-level completion tables, command ids, within-word automaton ids, feature flags) are recomputed independently from the automaton and compared; within-word automata grouped by isomorphic_to/shape_hash must have equal printed tables; for bash the emitted TEXT is read back with bash's own syntax (function blocks, double-quoted literal arrays, associative-array initialisers) and must equal those tables, with one command function per id holding the command verbatim, the start state and the `complete` registration.",
-        note="Not a proof beyond the constants. The text of the fish/zsh/pwsh emitters is not decoded (those shells are not installed and their printers are not under contract): a change confined to those printers is outside what this check detects.",
-        design="§7 C04", tech="Kani on extracted constants; bounded recomputation of the tables from the automaton and decoding of the emitted bash text (stand-in)", cat="exploration"),
+        text="Kani proves the per-shell index base constants (bash 0, fish 1, zsh 1, pwsh 0) on the extracted items. Everything else is a labelled bounded stand-in on the real code over the grammar corpus x 4 shells: (1) the LookupTables every emitter prints (literal list longest-first with ids from the shell's base, match tables, per-level completion tables, command ids, within-word automaton ids, feature flags) are recomputed independently from the automaton and compared; (2) isomorphic_to / shape_hash: every pair of distinct within-word table sets met in the corpus (plus level-permuted seeds) must not be reported isomorphic, isomorphic ones must hash alike; (3) the TEXT emitted by all four real emitters is read back with that shell's own table syntax and index base (bash/zsh associative-array initialisers, fish parallel `set` lists, PowerShell hashtables; string constants through the C07 decoders) and must equal those tables, with one command function per id holding the command verbatim, the start state, the description attached to each literal id, and the registration for the command name.",
+        note="Not a proof beyond the constants. The emitted text is decoded by readers written for this check, not by the shells (only bash is installed); the run-time code of the scripts (matching loops) is not interpreted here.",
+        design="§7 C04", tech="Kani on extracted constants; bounded recomputation of the tables from the automaton, pairwise isomorphism check, decoding of the emitted bash/zsh/fish/pwsh table text (stand-in)", cat="exploration"),
     "C06": dict(
         text="Verus proves panic-freedom (unreachable!/overflow/underflow obligations) of dfa::diagnostic_display_input for every Inp, of the HumanSpan accessors under span well-formedness, and of RegexInput::is_star_subword under its precondition. Process-level behaviour is checked by labelled bounded stand-ins: the built binary on planted-mistake grammars and structure-aware mutations (exit 0+script or 1+diagnostic, destination untouched), and no panic of the library pipeline on the grammar corpus.",
         note="Termination/stack depth unverified; nom parser not under contract; CLI runs are a bounded sample, not a proof.",
